@@ -158,6 +158,10 @@ class Builder:
         for k in ('title', 'subject', 'revision', 'keywords', 'unitname', 'unitmeter', 'upaxis'):
             if k in r:
                 setattr(a, k, r[k])
+        import datetime
+        for k in ('created', 'modified'):
+            if r.get(k):
+                setattr(a, k, datetime.datetime.fromisoformat(r[k]))
         for c in r.get('contributors', []):
             a.contributors.append(self.mk_contributor(c))
 
@@ -564,6 +568,32 @@ def apply_op(b, op, nodes_by_id, docs):
             e.params = list(e.params) + [sf, sm]
             if op[8] and 'diffuse' in SHADER_PROPS.get(e.shadingtype, []):
                 e.diffuse = material.Map(sm, 'UV')
+    elif k == 'empty_library':
+        # every object of one kind is removed (the library element disappears on save)
+        if op[1] == 'scenes':
+            m.scene = None
+        setattr(m, op[1], [])
+    elif k == 'add_one':
+        # one object of a kind (the first one when the library was empty: its library is created)
+        kind, r = op[1], op[2]
+        if kind == 'geometries':
+            m.geometries.append(b.mk_geometry(r))
+        elif kind == 'lights':
+            m.lights.append(b.mk_light(r))
+        elif kind == 'cameras':
+            m.cameras.append(b.mk_camera(r))
+        elif kind == 'images':
+            m.images.append(b.mk_image(r))
+        elif kind == 'effects':
+            m.effects.append(b.mk_effect(r))
+        elif kind == 'materials':
+            if len(m.effects) == 0:
+                m.effects.append(b.mk_effect(r['effect_recipe']))
+            m.materials.append(material.Material(r['id'], r['name'], m.effects[0]))
+        elif kind == 'nodes':
+            m.nodes.append(b.mk_node(r, nodes_by_id))
+        elif kind == 'scenes':
+            m.scenes.append(scene.Scene(r['id'], [b.mk_node(n, nodes_by_id) for n in r['nodes']]))
     elif k == 'set_scene':
         m.scene = m.scenes[op[1] % len(m.scenes)] if (op[1] is not None and len(m.scenes)) else None
     else:
